@@ -425,6 +425,32 @@ func ruleSessionStore(c *Ctx, r *Report) {
 			idV := resultValue(get, 0)
 			w := (&Walk{Fn: fn, Assume: assumeAll(atomAssume{mValue(idV), vNil(true)})}).After(get)
 			r.Check(okG && !w.Reached[st.Instr], "secret-source", key, c.ipos(st.Instr), "resumed secret taken only from a successful, non-empty store lookup", "a resumed master secret can be installed from a failed or empty store lookup: "+why)
+			// ... and a record without a secret is no session either: how a store spells "not
+			// found" is its own business (the zero value, or empty non-nil copies), and an
+			// abbreviated handshake over an empty master secret authenticates nobody
+			secV := resultValue(get, 1)
+			isLenOf := func(x ssa.Value, of ssa.Value) bool {
+				cl, ok := stripConv(x).(*ssa.Call)
+				return ok && calleeName(&cl.Call) == "builtin:len" && cl.Call.Args[0] == of
+			}
+			w2 := (&Walk{Fn: fn, Assume: func(v ssa.Value) (Val, bool) {
+				bo, ok := v.(*ssa.BinOp)
+				if !ok || secV == nil {
+					return unknown, false
+				}
+				k, isK := constInt(bo.Y)
+				if !isLenOf(bo.X, secV) || !isK || k != 0 {
+					return unknown, false
+				}
+				switch bo.Op { // the secret is empty
+				case token.EQL, token.LEQ:
+					return vBool(true), true
+				case token.NEQ, token.GTR:
+					return vBool(false), true
+				}
+				return unknown, false
+			}}).After(get)
+			r.Check(!w2.Reached[st.Instr], "secret-source", key+":non-empty-secret", c.ipos(st.Instr), "no session is resumed from a record whose secret is empty", "a store record with an empty secret counts as a known session (only the ID is compared with nil): a store that answers an unknown key with empty, non-nil slices makes every offered session ID resumable with an empty master secret, which any peer can compute the Finished for - and the abbreviated handshake skips certificates and client authentication")
 			// key of the lookup
 			k := get.Call.Args[0]
 			isServer := strings.Contains(short(fn), "handleHelloResume")
